@@ -86,6 +86,8 @@ impl<T: Sized> Drop for JoinHandle<T> {
                     crate::verif_thread::DROP_BEFORE_DEALLOC,
                     self.tsm.0 as usize,
                 );
+                // Nobody will ever join: if the thread left a return value behind, drop it.
+                drop(self.tsm.get_value::<T>().into_inner());
                 self.tsm.dealloc();
             }
         }
@@ -366,6 +368,8 @@ where
                     crate::verif_thread::CHILD_BEFORE_TSM_DEALLOC,
                     tsm.0 as usize,
                 );
+                // Nobody will ever join: drop the return value before its storage goes away.
+                core::ptr::drop_in_place(tsm.value_mut::<T>());
                 tsm.dealloc();
             }
             // Also dealloc the local storage for this thread, nobody needs that anymore
